@@ -92,3 +92,14 @@ Print Assumptions C18_dense_not_once.
 Print Assumptions C18_dense_implies.
 Print Assumptions C18_dense_eventually_eventually.
 Print Assumptions C18_dense_once_once.
+
+(* the same laws for the lists the dense-time offline visitor builds: both sides denote the same signal *)
+From RV Require Import DenseMergeCorrect DenseEvalCorrect DenseVisitor DenseEvalMain DenseVisitorLaws.
+Theorem C18_dense_visitor :
+  forall (VS : Val) (AR : Arith VS), (forall l r, neg (a2 AR Sub l r) = a2 AR Sub r l) ->
+  forall (W : list dsig) (tend : Z) (l r : formula),
+    (0 <= tend)%Z -> wfW W tend -> dense_law l r ->
+    dfrag l = true -> wf_bounds l = true -> (nvars l <= length W)%nat ->
+    exists s1 s2, deval AR l W = Some s1 /\ deval AR r W = Some s2 /\ forall t, den_opt s1 t = den_opt s2 t.
+Proof. intros VS AR SN W tend l r. exact (visitor_laws AR SN W tend l r). Qed.
+Print Assumptions C18_dense_visitor.
